@@ -290,9 +290,13 @@ Section Main.
   Variable ign : bool.
   Variable replay : pconfig -> option cls -> list pevent -> outcome.
   Variable root : option cls.
+  Variable ord : bool.           (* the readings keep the attribute order (Spec/Fits.v reads_o) *)
   Hypothesis conv_law : conv_roundtrips c u ok.
   Hypothesis Hnodef : nodefault_free cfg = true.
 
+  Notation reads := (reads_o ord).
+  Notation reads_kids := (reads_kids_o ord).
+  Notation reads_attrs := (reads_attrs ord).
   Notation leaf_ok := (leaf_ok c u ok).
   Notation token_ok := (token_ok c u ok py_isspace).
   Notation fits := (fits c u ok py_isspace).
@@ -616,7 +620,7 @@ Section Main.
       /\ (xsi_val xt0 = None -> ~ In XSI_TYPE (map fst attrs))
       /\ (forall xq, xsi_val xt0 = Some xq -> exists s, In (XSI_TYPE, s) attrs /\ resolve_qname ns s = Some (Bind.split_qname xq)).
     Proof.
-      intros [Hnd [Hlen Hall]].
+      intros [Hnd [Hlen [Hall Hord]]].
       set (K := flat_map emitted avars ++ xsi_name).
       assert (Hcase : forall var, In var avars ->
                 (e_attr var (F var) = [] /\ default_call (v_default var) = F var)
@@ -1263,7 +1267,7 @@ Section Main.
                 PEnd (v_qname var) (match y_text (v_format var) y with [] => None | s => Some s end) tail].
     Proof.
       intros Hs Hr. assert (Ene : nil_attr_e var y = []) by (destruct Hs; reflexivity).
-      unfold RoundtripGen.e_prim in Hr. rewrite Ene in Hr. cbn [reads] in Hr.
+      unfold RoundtripGen.e_prim in Hr. rewrite Ene in Hr. cbn [reads_o] in Hr.
       destruct Hr as [attrs [ns [text [tail [kes [Ha [Hra [Htl Hk]]]]]]]]. destruct Hra as [_ [Hlen _]].
       rewrite clark_split in Ha. destruct attrs; [|discriminate Hlen].
       destruct (e_data_spec c u ok t _ y Hs) as [Hd Hat]. rewrite Hd in Hk.
@@ -1282,7 +1286,7 @@ Section Main.
                 PEnd (v_qname var) (match y_text (v_format var) y with [] => None | s => Some s end) tail].
     Proof.
       intros Ht Hs Hr. assert (Ene : nil_attr_e var y = []) by (destruct Hs; reflexivity).
-      unfold RoundtripGen.e_prim in Hr. rewrite Ene in Hr. cbn [reads] in Hr.
+      unfold RoundtripGen.e_prim in Hr. rewrite Ene in Hr. cbn [reads_o] in Hr.
       destruct Hr as [attrs [ns [text [tail [kes [Ha [Hra [Htl Hk]]]]]]]]. destruct Hra as [_ [Hlen _]].
       rewrite clark_split in Ha. destruct attrs; [|discriminate Hlen].
       destruct (e_data_spec c u ok t _ y Hs) as [Hd Hat]. rewrite Hd in Hk.
@@ -1408,7 +1412,7 @@ Section Main.
     Proof.
       intros Hv Hcl Ht Htf Hok Hq Hasg Hag Hr. pose proof Hv as [Hw _].
       unfold RoundtripGen.e_prim, RoundtripGen.e_data in Hr. cbn [RoundtripGen.e_atoms] in Hr.
-      rewrite (qname_nontrivial q1 Hq) in Hr. cbn [reads] in Hr.
+      rewrite (qname_nontrivial q1 Hq) in Hr. cbn [reads_o] in Hr.
       destruct Hr as [attrs [ns [text [tail [kes [Ha [Hra [Htl Hk]]]]]]]]. destruct Hra as [_ [Hlen _]].
       rewrite clark_split in Ha. destruct attrs; [|discriminate Hlen].
       destruct Hk as [s [Hs [Hne [-> ->]]]]. cbn [atoms_read] in Hs. subst a.
@@ -1480,9 +1484,9 @@ Section Main.
         by (destruct (wf_elem_nil var Hw Hnl) as [[t [_ [_ [_ H]]]]|[k [_ [_ H]]]]; exact H).
       assert (He : ienode var VNone = EElem (Bind.split_qname (v_qname var)) [(Bind.split_qname XSI_NIL, [AText EventGen.TRUE_STR])] []).
       { unfold ienode. rewrite Htf. cbn [RoundtripGen.e_item]. unfold RoundtripGen.e_prim, nil_attr_e. rewrite Hnl. reflexivity. }
-      rewrite He in Hr. cbn [reads] in Hr.
+      rewrite He in Hr. cbn [reads_o] in Hr.
       destruct Hr as [attrs [ns [text [tail [kes [Ha [Hra [Htl [-> ->]]]]]]]]].
-      destruct Hra as [_ [Hlen Hall]].
+      destruct Hra as [_ [Hlen [Hall _]]].
       destruct (Hall _ (or_introl eq_refl)) as [v [Hv1 Hv2]]. cbn [fst snd atoms_read] in Hv1, Hv2.
       rewrite clark_split in Hv2. inversion Hv1; subst v.
       destruct attrs as [|a0 [|? ?]]; try discriminate Hlen. destruct Hv2 as [->|[]].
@@ -1564,7 +1568,7 @@ Section Main.
     Lemma reads_kids_app a : forall b kes,
       reads_kids (a ++ b) kes <-> exists k1 k2, kes = k1 ++ k2 /\ reads_kids a k1 /\ reads_kids b k2.
     Proof.
-      induction a as [|x a IHa]; intros b kes; cbn [app reads_kids].
+      induction a as [|x a IHa]; intros b kes; cbn [app reads_kids_o].
       - split.
         + intros H. exists [], kes. repeat split. exact H.
         + intros [k1 [k2 [-> [-> H]]]]. exact H.
@@ -1588,8 +1592,8 @@ Section Main.
                         (objs ++ map (fun y => (Some (v_qname var), y)) l) W) rest.
     Proof.
       induction l as [|y l IHl]; intros kes asg wr wo Q objs W rest Hv Hf Hall Hag Hr.
-      - cbn [map reads_kids] in Hr. subst kes. rewrite app_nil_r. reflexivity.
-      - cbn [map reads_kids] in Hr. destruct Hr as [a [b [-> [Ha Hb]]]]. inversion_clear Hall as [|? ? Hy Hl].
+      - cbn [map reads_kids_o] in Hr. subst kes. rewrite app_nil_r. reflexivity.
+      - cbn [map reads_kids_o] in Hr. destruct Hr as [a [b [-> [Ha Hb]]]]. inversion_clear Hall as [|? ? Hy Hl].
         rewrite <- app_assoc.
         rewrite (one_item_run var y a asg wr wo Q objs W (b ++ rest) Hv Hy); [|rewrite Hf; discriminate|exact Hag|exact Ha].
         unfold asg_after. rewrite Hf.
@@ -1629,7 +1633,7 @@ Section Main.
       intros Hv Hall Hone Hasg Hwq Hr.
       pose proof Hv as [Hwe _].
       destruct (e_field_cases var x Hv) as [[Ee Eo]|Ee]; rewrite Ee in Hr.
-      { cbn [reads_kids] in Hr. subst kes. unfold asg_field, tagged, wentry. rewrite Eo.
+      { cbn [reads_kids_o] in Hr. subst kes. unfold asg_field, tagged, wentry. rewrite Eo.
         destruct (v_wrapper_qname var); cbn [map app]; rewrite !app_nil_r; reflexivity. }
       unfold asg_field, tagged, wentry. unfold RoundtripGen.e_wrap in Hr.
       destruct (v_wrapper_qname var) as [w|] eqn:Ew.
@@ -1640,8 +1644,8 @@ Section Main.
         assert (Hr' : reads_kids [EElem (Bind.split_qname w) [] (map (ienode var) (occ var x))] kes).
         { destruct w as [|ch w']; [congruence|exact Hr]. }
         clear Hr. rename Hr' into Hr.
-        cbn [reads_kids] in Hr. destruct Hr as [a [b [-> [Ha ->]]]]. rewrite app_nil_r.
-        cbn [reads] in Ha. destruct Ha as [attrs [ns [text [tail [kes [Hp [Hra [Htl Hk]]]]]]]].
+        cbn [reads_kids_o] in Hr. destruct Hr as [a [b [-> [Ha ->]]]]. rewrite app_nil_r.
+        cbn [reads_o] in Ha. destruct Ha as [attrs [ns [text [tail [kes [Hp [Hra [Htl Hk]]]]]]]].
         rewrite clark_split in Hp. subst a.
         assert (Hkids : reads_kids (map (ienode var) (occ var x)) kes).
         { apply (reads_content_elems ns _ text kes); [|exact Hk].
@@ -1670,8 +1674,8 @@ Section Main.
           rewrite wr_pushes_none. unfold asg_after. rewrite Ef. cbn [ctx app].
           destruct (occ var x); reflexivity.
         + specialize (Hone eq_refl). destruct (occ var x) as [|y [|? ?]]; [| |cbn [length] in Hone; lia].
-          * cbn [map reads_kids] in Hr. subst kes. cbn [map]. rewrite !app_nil_r. reflexivity.
-          * cbn [map reads_kids] in Hr. destruct Hr as [a [b [-> [Ha ->]]]]. rewrite !app_nil_r.
+          * cbn [map reads_kids_o] in Hr. subst kes. cbn [map]. rewrite !app_nil_r. reflexivity.
+          * cbn [map reads_kids_o] in Hr. destruct Hr as [a [b [-> [Ha ->]]]]. rewrite !app_nil_r.
             inversion_clear Hall as [|? ? Hy _].
             apply (one_item_run var y a asg wr None Q objs W rest Hv Hy (fun _ => Hasg eq_refl) I Ha).
     Qed.
@@ -1825,7 +1829,7 @@ Section Main.
                    = prun (mk_pstate (NElement (enW asg' (wr ++ flat_map wentryp l)) :: Q) (objs ++ flat_map taggedp l) W) rest.
     Proof.
       induction l as [|[var x] l IHl]; intros kes asg wr Q objs W rest Htx Hall Hnd Hfr Hr.
-      - cbn [flat_map reads_kids] in Hr. subst kes. exists asg. rewrite !app_nil_r. reflexivity.
+      - cbn [flat_map reads_kids_o] in Hr. subst kes. exists asg. rewrite !app_nil_r. reflexivity.
       - cbn [flat_map fst snd] in Hr. apply reads_kids_app in Hr as [k1 [k2 [-> [H1 H2]]]].
         destruct (Hall (var, x) (or_introl eq_refl)) as [Hvar [Hv [Hio Hone]]]. cbn [fst snd] in *.
         rewrite <- app_assoc.
@@ -2284,7 +2288,7 @@ Section Main.
     intros IH cl o qn xt Hwf Hfit Hxq pevs Hr.
     destruct (fits_inv c u ok py_isspace n cl o Hfit) as [fs [m [-> [Hm [Hnames [Hfa [Hfe Hft]]]]]]].
     destruct (wfr_inv u cl Hwf) as [m' [Hm' [Hmc [Hwc Hnest]]]]. rewrite Hm in Hm'. inversion Hm'; subst m'. clear Hm'.
-    cbn [RoundtripGen.eobj] in Hr. rewrite Hm in Hr. cbn [add_xsi_e reads] in Hr.
+    cbn [RoundtripGen.eobj] in Hr. rewrite Hm in Hr. cbn [add_xsi_e reads_o] in Hr.
     destruct Hr as [attrs [ns [text [tail [kes [Hp [Hra [Htl Hk]]]]]]]].
     rewrite clark_split in Hp.
     assert (Hq : elem_name qn cl = match qn with Some ((_ :: _) as q) => q | _ => m_qname m end).
